@@ -58,7 +58,10 @@ func genC14Arg(t *rapid.T) c14Arg {
 // c14Variant returns the sugared logger itself or an equivalent one obtained
 // through another constructor path (none of them adds context or a name).
 func c14Variant(t *rapid.T, s *zap.SugaredLogger) *zap.SugaredLogger {
-	switch rapid.SampledFrom([]string{"plain", "plain", "WithOptions", "Desugar.Sugar", "Named(empty)", "With()", "WithOptions.WithOptions", "Desugar.WithOptions.Sugar"}).Draw(t, "loggerVariant") {
+	switch rapid.SampledFrom([]string{"plain", "plain", "WithOptions", "Desugar.Sugar", "Named(empty)", "With()", "WithOptions.WithOptions", "Desugar.WithOptions.Sugar", "Development", "Development"}).Draw(t, "loggerVariant") {
+	case "Development":
+		// development mode changes what DPanic does, not how argument lists are swept or reported
+		return s.WithOptions(zap.Development())
 	case "WithOptions":
 		return s.WithOptions(zap.AddCallerSkip(0))
 	case "Desugar.Sugar":
